@@ -139,8 +139,11 @@ class C18(Harness):
                     ops.append(['remove', enc(objs[-1])])
             ops.append(['clear'])
             nk = [k for k in NEWKEYS if k not in model] or NEWKEYS
-            ops.append(['replace', [[nk[0], enc((fresh + objs)[0])]] + ([[keys[0], enc(objs[0])]] if keys and objs[0] != (fresh + objs)[0] else [])])
+            first = (fresh + objs)[0]
+            ops.append(['replace', [[nk[0], enc(first)]] + ([[keys[0], enc(objs[0])]] if keys and objs[0] is not first and objs[0] != first else [])])
         for v in POOL[:2] + NEW[:1]:
+            if cfg.get('open') and str(v) in model:
+                continue          # (an un-named entry whose generated name would collide with an existing key: outside "unique objects")
             ops.append(['assign', enc(v)])
         return ops
 
